@@ -229,7 +229,9 @@ func driveRandomLegal(c *driverCtx, prop string) {
 		}
 		encSmallInts = false
 		codec := codecs3[i%3]
+		metaLayout = []int{0, 1, 3, 4}[i%4] // (a byte-sized metadata block is refused by the library with an explicit error: not used)
 		file := buildContainer(sj, codec, true, []byte("0123456789abcdef"), blocks)
+		metaLayout = 0
 		r := readBack(t, file, readerKinds[i%4], i%2 == 0, -1, nil)
 		c.rec.NewCase()
 		c.rec.Emit(fmt.Sprintf("%s|random-legal|%s", prop, strings.Join(tags, "+")), map[string]any{
@@ -521,7 +523,9 @@ func driveVectors(c *driverCtx, prop string) error {
 					}
 					blocks = append(blocks, [2]any{n, raw})
 				}
+				metaLayout = []int{0, 1, 3, 4}[(ti+si+from)%4]
 				file := buildContainer([]byte(topJSON), codec, true, sync, blocks)
+				metaLayout = 0
 				r := readBack(tg.t, file, readerKinds[(ti+si)%4], ti%2 == 0, -1, nil)
 				ev := map[string]any{
 					"op": "vec_read", "mode": prop, "schema": top, "datums": datums, "target": projectType(tg.t), "targetName": tg.name,
